@@ -281,3 +281,32 @@ pub fn cursor(cex: &Value) -> Result<String, String> {
     Ok(_) => Err(format!("{input:?} is handled without panic and decomposes consistently")),
   }
 }
+
+
+/// Confirmation of a segment-scanner candidate: the text through the fragment / query / path setters against the ABNF.
+pub fn segment(cex: &Value) -> Result<String, String> {
+  let text = cex.get("text").and_then(Value::as_str).unwrap_or("").to_owned();
+  let t2 = text.clone();
+  let r = no_panic(move || {
+    let mut notes = Vec::new();
+    let mut u = RelativeDIDUrl::new();
+    let body_f = t2.strip_prefix('#').unwrap_or(&t2);
+    if u.set_fragment(Some(&t2)).is_ok() != (!body_f.is_empty() && abnf_qf(body_f)) {
+      notes.push(format!("set_fragment({t2:?}) {}", if abnf_qf(body_f) { "rejected" } else { "accepted" }));
+    }
+    let body_q = t2.strip_prefix('?').unwrap_or(&t2);
+    if u.set_query(Some(&t2)).is_ok() != (!body_q.is_empty() && abnf_qf(body_q)) {
+      notes.push(format!("set_query({t2:?}) {}", if abnf_qf(body_q) { "rejected" } else { "accepted" }));
+    }
+    let p = format!("/{t2}");
+    if u.set_path(Some(&p)).is_ok() != abnf_path(&p) {
+      notes.push(format!("set_path({p:?}) {}", if abnf_path(&p) { "rejected" } else { "accepted" }));
+    }
+    notes
+  });
+  match r {
+    Err(msg) => Ok(format!("setters panicked on {text:?}: {msg}")),
+    Ok(notes) if !notes.is_empty() => Ok(notes.join("; ")),
+    Ok(_) => Err(format!("{text:?}: setters agree with the ABNF")),
+  }
+}
